@@ -51,7 +51,7 @@ def recLeaf (crate : Str) (r : Renames) (imports : List ImportedType) (l : Leaf)
 
 mutual
   /-- **`check_type` keeps the shape of a type and rewrites every name in it — the `simple` leaves
-  and (since the `fix:` commit 821da1d) the heads of generic applications — by `resolve_renamed`** -/
+  and (since the `fix:` commit 944b749) the heads of generic applications — by `resolve_renamed`** -/
   theorem leaves_checkType (c : Str) (r : Renames) (i : List ImportedType) :
       ∀ t : RustType, leaves (checkType c r i t) = (leaves t).map (recLeaf c r i)
     | .simple id => by
@@ -584,7 +584,7 @@ theorem ref_exact {P : ParsedData} (hs : InScope P) {lc : LangCfg} (hc : typeMap
         cases hdu : defUsesOriginal lc t <;> simp [Renamed]
   · have he : e ∈ P.enums := enum_of_mem_typeItems hit
     rcases hpi with hp | ⟨v, hi⟩
-    · -- parent references: always consistent (since 03e02a1)
+    · -- parent references: always consistent (since 3d3e1e7)
       have hfin : ∀ sp : Str, ref = ⟨sp, .parent e.id.original, false⟩ → sp = defName lc (.enum e) →
           (ref.spelling = n ↔ KnownRef lc P ref = false) := by
         intro sp hr hsp
@@ -613,7 +613,7 @@ theorem ref_exact {P : ParsedData} (hs : InScope P) {lc : LangCfg} (hc : typeMap
       | swift c => simp [parentRefs] at hp
       | go c => simp [parentRefs] at hp
       | python c => simp [parentRefs] at hp
-    · -- helper-struct references: always consistent (since 03e02a1)
+    · -- helper-struct references: always consistent (since 3d3e1e7)
       have hfin : ∀ sp : Str, ref = ⟨sp, .inner e.id.original v, false⟩ → innerDefName lc e v = some sp →
           (ref.spelling = n ↔ KnownRef lc P ref = false) := by
         intro sp hr hsp
